@@ -205,6 +205,11 @@ macro_rules! dispatch {
             "C04" => $f(&props::c04::C04, $($args),*),
             "C09" => $f(&props::c09::C09, $($args),*),
             "C10" => $f(&props::c10::C10, $($args),*),
+            "C14" => $f(&props::c14::C14, $($args),*),
+            "C15" => $f(&props::c14::C15, $($args),*),
+            "C16" => $f(&props::c16::C16, $($args),*),
+            "C25" => $f(&props::c25::C25, $($args),*),
+            "C26" => $f(&props::c26::C26, $($args),*),
             "C28" => $f(&props::c28::C28, $($args),*),
             "C11" => $f(&props::c11::C11, $($args),*),
             "C12" => $f(&props::c12::C12, $($args),*),
